@@ -159,6 +159,8 @@ CONTROLS = [
     ("statement-between-position-and-velocity-refresh", IBFI, "        self.forcing_grid.compute_lag_grid_position_field()\n        self.forcing_grid.compute_lag_grid_velocity_field()\n        self.compute_interaction_forcing(",
      "        self.forcing_grid.compute_lag_grid_position_field()\n        num_markers = self.forcing_grid.num_lag_nodes\n        self.forcing_grid.compute_lag_grid_velocity_field()\n        self.compute_interaction_forcing(", ["C09", "C10", "C18"]),
     ("interaction-flow-velocity-plain-reference", IBFI, "self.eul_grid_velocity_field = eul_grid_velocity_field.view()", "self.eul_grid_velocity_field = eul_grid_velocity_field[...]", ["C10", "C18"]),
+    ("forcing-update-contiguous-copy-of-read-only-input", E3 + "update_vorticity_from_velocity_forcing_3d.py", "        vorticity_field: np.ndarray,\n        velocity_forcing_field: np.ndarray,\n        prefactor: float,\n    ) -> None:",
+     "        vorticity_field: np.ndarray,\n        velocity_forcing_field: np.ndarray,\n        prefactor: float,\n    ) -> None:\n        velocity_forcing_field = np.ascontiguousarray(velocity_forcing_field)", ["C12", "C13", "C05"]),
 ]
 
 
